@@ -19,7 +19,7 @@ use {
     failspot::failspot,
     nix::{
         errno::Errno,
-        sys::{ptrace, signal, wait},
+        sys::{ptrace, signal},
     },
     procfs_core::{
         process::{MMPermissions, ProcState, Stat},
@@ -253,33 +253,46 @@ impl PtraceDumper {
         // This may fail if the thread has just died or debugged.
         ptrace::attach(pid).map_err(|e| AttachErr(child, e))?;
         loop {
-            match wait::waitpid(pid, Some(wait::WaitPidFlag::__WALL)) {
-                Ok(status) => {
-                    let wait::WaitStatus::Stopped(_, status) = status else {
-                        return Err(DumperError::WaitPidError(
-                            child,
-                            nix::errno::Errno::UnknownErrno,
-                        ));
-                    };
-
-                    // Any signal will stop the thread, make sure it is SIGSTOP. Otherwise, this
-                    // signal will be delivered after PTRACE_DETACH, and the thread will enter
-                    // the "T (stopped)" state.
-                    if status == nix::sys::signal::SIGSTOP {
-                        break;
-                    }
-
-                    // Signals other than SIGSTOP that are received need to be reinjected,
-                    // or they will otherwise get lost.
-                    if let Err(err) = ptrace::cont(pid, status) {
-                        return Err(DumperError::WaitPidError(child, err));
+            // Use the raw wait status: `nix::sys::wait::waitpid` cannot represent a stop caused
+            // by a realtime signal (it fails with EINVAL), and detaching on that error would
+            // discard the signal and drop the thread from the dump.
+            let mut raw_status = 0;
+            if unsafe { libc::waitpid(child, &mut raw_status, libc::__WALL) } < 0 {
+                match Errno::last() {
+                    Errno::EINTR => continue,
+                    e => {
+                        ptrace_detach(child)?;
+                        return Err(DumperError::WaitPidError(child, e));
                     }
                 }
-                Err(Errno::EINTR) => continue,
-                Err(e) => {
-                    ptrace_detach(child)?;
-                    return Err(DumperError::WaitPidError(child, e));
-                }
+            }
+            if !libc::WIFSTOPPED(raw_status) {
+                return Err(DumperError::WaitPidError(
+                    child,
+                    nix::errno::Errno::UnknownErrno,
+                ));
+            }
+            let stop_signal = libc::WSTOPSIG(raw_status);
+
+            // Any signal will stop the thread, make sure it is SIGSTOP. Otherwise, this
+            // signal will be delivered after PTRACE_DETACH, and the thread will enter
+            // the "T (stopped)" state.
+            if stop_signal == libc::SIGSTOP {
+                break;
+            }
+
+            // Signals other than SIGSTOP that are received (including realtime signals) need
+            // to be reinjected, or they will otherwise get lost.
+            let reinjected = unsafe {
+                libc::ptrace(
+                    libc::PTRACE_CONT,
+                    child,
+                    std::ptr::null_mut::<libc::c_void>(),
+                    stop_signal as libc::c_long,
+                )
+            };
+            if reinjected < 0 {
+                return Err(DumperError::WaitPidError(child, Errno::last()));
             }
         }
         #[cfg(any(target_arch = "x86", target_arch = "x86_64"))]
